@@ -13,6 +13,7 @@ RULES = {
     "C13.R3": "inference effects: no external write effect is reachable from forward/qforward/qweight, any aten handler or library implementation (reasoned exemptions: copy_ handler, Extension.lib)",
     "C13.R4": "quantization effects: in the closure of quantize_weight/quantize_activation/freeze/quantize no in-place tensor operation targets a value that is not freshly allocated",
     "C13.R6": "a module's outputs do not give write access to its buffers: the scale handed to quantize_activation in forward / qforward is stored in the returned tensor as it is (C01.R2), so passing the registered buffer itself makes every in-place write on an output's scale (the copy_ handler does one) a write on the module's state",
+    "C13.R7": "(= C05.R18 (a), value handlers) the result of a handler that is not a view owns its scale and its payload, so an in-place operation on a result never rewrites the quantized input or cached activation it was computed from",
     "C13.R5": "disable_extensions restores the switch in a finally that encloses the yield",
 }
 
@@ -40,6 +41,11 @@ def run(chk):
     disable_ext(chk)
     if chk.pid == "C13":
         buffer_aliasing(chk)
+        # inference must not change the tensors it is given either: a result sharing its operand's scale / payload object turns an in-place op on the
+        # result (written back since 683c0c3) into a write on the operand
+        from . import c05
+        from ..report import AliasedCheck
+        c05.ownership_rule(AliasedCheck(chk, {"C05.R18": "C13.R7"}), handlers(chk.repo), "C05.R18", views=False)
     chk.assume("torch functional calls do not mutate their arguments except through trailing-underscore methods and out=",
                "RemovableHandle.remove() and TorchFunctionMode.__exit__ restore torch's own registries (torch bookkeeping trusted)")
 
@@ -482,11 +488,31 @@ def inference_effects(chk, g):
     chk.floor("C13.R3", len(roots), 45, "inference entry points (forward/qforward/qweight, handlers, library implementations, dispatchers)")
     seen = set()
     n_fn = set()
+    # the destination of an in-place aten op is written at the caller's request: a handler registered for one may write into it, directly or in a callee
+    from ..core import positional_params as _pp
+    inplace_dest = {}
+    for t in ("qbytes", "qbits"):
+        for h in handlers(chk.repo)[t]:
+            if any(o.split(".")[1].endswith("_") for o in h.ops) and len(_pp(h.fn)) > 1:
+                inplace_dest[id(h.fn)] = _pp(h.fn)[1]
+    is_function = lambda r: r.cls is not None and any(b.endswith("Function") for b in chk.repo.external_bases(r.cls))  # noqa: E731
+    # an autograd Function's forward is called through `.apply` by the library itself: where another entry point reaches it, the arguments it
+    # receives are judged at those call sites (a clone handed over by the caller is not the caller's state); unreached ones stay entry points
+    reached = set()
+    for r in roots:
+        if not (is_function(r) and r.fn.name == "forward"):
+            for f in g.reachable(r):
+                if f is not r:
+                    reached.add(id(f.fn))
     for r in roots:
         for f in g.reachable(r):
             n_fn.add(id(f.fn))
+        if is_function(r) and r.fn.name == "forward" and id(r.fn) in reached:
+            continue
         # the autograd context of Function.forward/backward is created by torch for the call
-        fresh = {"ctx"} if r.fn.name in ("forward", "backward") and r.cls is not None and any(b.endswith("Function") for b in chk.repo.external_bases(r.cls)) else set()
+        fresh = {"ctx"} if r.fn.name in ("forward", "backward") and is_function(r) else set()
+        if id(r.fn) in inplace_dest:
+            fresh = fresh | {inplace_dest[id(r.fn)]}
         for e, f, chain in g.external_effects(r, fresh):
             key = (f.qual, e.text, e.kind)
             if key in seen:
